@@ -183,6 +183,18 @@ CHECKS["C09"] = dict(
     design_ref="DESIGN.md#c09",
 )
 
+CHECKS["C16"] = dict(
+    category="exploration",
+    text="The real CassetteWriter (VCR, HAR; preserve-bytes on/off) and JunitXMLHandler are driven with synthesised event histories "
+    "built from real Case/Response/prepared-request objects whose URLs, header values and bodies are hostile (quotes, #, control "
+    "characters, \\x85, U+2028, invalid UTF-8, empty/absent bodies, network errors, unknown encodings, cases without metadata, the "
+    "same failure re-found under another label), and by real `st run --report vcr,har,junit` runs; the files are parsed with "
+    "independent parsers and every delivered exchange is compared field by field; handler exceptions and writer-thread deaths are observed.",
+    note="Bodies that are not valid UTF-8 are compared only with preserve-bytes; JUnit is judged for well-formedness, no crash and failure marking.",
+    technique="runtime monitoring: offline checker over produced report files (exactly-once, field fidelity) + exception observation",
+    design_ref="DESIGN.md#c16",
+)
+
 NOT_APPLICABLE = {}
 
 
